@@ -9,6 +9,7 @@ pub(crate) mod c05;
 pub(crate) mod c07;
 pub(crate) mod c08;
 pub(crate) mod c09;
+pub(crate) mod c11;
 pub(crate) mod c12;
 pub(crate) mod c10;
 pub(crate) mod c13;
@@ -41,6 +42,7 @@ pub(crate) fn run(id: &str, opts: &Opts) -> Option<i32> {
         "C07" => c07::run(opts, &mut report),
         "C08" => c08::run(opts, &mut report),
         "C09" => c09::run(opts, &mut report),
+        "C11" => c11::run(opts, &mut report),
         "C12" => c12::run(opts, &mut report),
         "C10" => c10::run(opts, &mut report),
         "C13" => c13::run(opts, &mut report),
